@@ -131,10 +131,38 @@ def fitters_stateless(ctx, obs, rule='NI'):
         if not (q.startswith('model.fitter.') and fi.parent is None):
             continue
         r = dep.result(q)
-        g = {t for t in r.ret if t.startswith('G:')}
-        obs.check(not g, rule, q, 'result depends on no module-level variable',
+        g = {t for t in r.ret if t.startswith('G:') and t[2:] in _mutable_globals(prog)}
+        obs.check(not g, rule, q, 'result depends on no module-level variable that is written at run time',
                   f'result depends on module state {sorted(g)}: a fit can depend on earlier fits', '',
                   where(prog, fi, fi.node))
+
+
+def _mutable_globals(prog):
+    """module-level names that some function can change: rebinding through `global x`, or an in-place update (x[k] = v,
+    x.append(...), x.update(...), x += ...) of a module-level name inside a function.  Tables that are only read are constants."""
+    cache = getattr(prog, '_mutable_globals', None)
+    if cache is not None:
+        return cache
+    out = set()
+    mut = {'append', 'extend', 'update', 'insert', 'pop', 'popitem', 'clear', 'remove', 'setdefault', 'sort', 'add', 'discard'}
+    for mname, m in prog.modules.items():
+        top = {t.id for s_ in m.tree.body if isinstance(s_, (ast.Assign, ast.AnnAssign))
+               for t in (s_.targets if isinstance(s_, ast.Assign) else [s_.target]) if isinstance(t, ast.Name)}
+        for fn in [n for n in ast.walk(m.tree) if isinstance(n, ast.FunctionDef)]:
+            declared = {x for n in ast.walk(fn) if isinstance(n, ast.Global) for x in n.names}
+            local = {n.id for n in ast.walk(fn) if isinstance(n, ast.Name) and isinstance(n.ctx, ast.Store)} - declared
+            for n in ast.walk(fn):
+                if isinstance(n, ast.Name) and isinstance(n.ctx, ast.Store) and n.id in declared:
+                    out.add(f'{mname}.{n.id}')
+                if isinstance(n, (ast.Assign, ast.AugAssign)):
+                    for t in (n.targets if isinstance(n, ast.Assign) else [n.target]):
+                        if isinstance(t, ast.Subscript) and isinstance(t.value, ast.Name) and t.value.id in top and t.value.id not in local:
+                            out.add(f'{mname}.{t.value.id}')
+                if isinstance(n, ast.Call) and isinstance(n.func, ast.Attribute) and n.func.attr in mut \
+                        and isinstance(n.func.value, ast.Name) and n.func.value.id in top and n.func.value.id not in local:
+                    out.add(f'{mname}.{n.func.value.id}')
+    prog._mutable_globals = out
+    return out
 
 
 def _ret_names(f, r):
